@@ -187,7 +187,7 @@ def run(ctx):
 
         # ------------------------------------------------ monitor
         sites = ["construct", "construct-json", "before", "endpoint", "status",
-                 "after"]
+                 "after", "stream-first", "stream-mid"]
         methods = ["GET", "HEAD", "POST", "PUT", "DELETE", "PATCH",
                    "OPTIONS", "TRACE", "CONNECT"]
         combos = list(itertools.product((None, True, False), OVERRIDES,
@@ -205,7 +205,8 @@ def run(ctx):
                 for combo in combos]
         # every class at every site once with debug plainly off and on
         for cls in EXC:
-            for site in ("before", "endpoint", "status", "after"):
+            for site in ("before", "endpoint", "status", "after",
+                         "stream-mid"):
                 plan.append((False, None, False, site, cls))
                 if not ctx.quick or cls is not RuntimeError:
                     plan.append((None, "On", False, site, cls))
@@ -232,6 +233,15 @@ def run(ctx):
                         raise exc_cls(TOKEN)
                     if site == "status":
                         abort(404)
+                    if site in ("stream-first", "stream-mid"):
+                        # the failure happens while the server iterates the
+                        # body: nothing about it may be written to the client
+                        def module_internal_stream_fn():
+                            if site == "stream-mid":
+                                yield b"first chunk"
+                            raise exc_cls(TOKEN)
+                            yield b"never"
+                        return module_internal_stream_fn()
                     return "fine"
                 app.set_route("/boom", module_internal_handler_fn, 511)
                 if site == "before":
